@@ -1,0 +1,62 @@
+//go:build verif
+// +build verif
+
+package keystore
+
+// Read-only accessors for the verification harness (/verif, properties C03, C04, C05).
+// Add-only; compiled only with the build tag "verif". They expose existing state, they do
+// not change it.
+
+// VerifUnlock is the unlock state of an AddrManager as the model of /verif/coq/Keys/Unlock.v sees it.
+type VerifUnlock struct {
+	Unlocked          bool // a.unlocked
+	MasterKeyZero     bool // masterKeyPriv.Key is all zero
+	HashedZero        bool // hashedPrivPassphrase is all zero
+	BranchPriv        bool // externalBranchPriv and internalBranchPriv are both set
+	AcctPriv          bool // acctInfo.acctKeyPriv is set
+	CachedPrivKeys    int  // number of managed addresses with privKey != nil
+	CryptoKeyPrivZero bool // cryptoKeyPriv is all zero
+}
+
+func allZero(b []byte) bool {
+	for _, c := range b {
+		if c != 0 {
+			return false
+		}
+	}
+	return true
+}
+
+// VerifUnlockState reads the unlock state under the manager's lock.
+func (a *AddrManager) VerifUnlockState() VerifUnlock {
+	a.mu.Lock()
+	defer a.mu.Unlock()
+	u := VerifUnlock{Unlocked: a.unlocked, MasterKeyZero: true, CryptoKeyPrivZero: true}
+	if a.masterKeyPriv != nil && a.masterKeyPriv.Key != nil {
+		u.MasterKeyZero = allZero(a.masterKeyPriv.Key[:])
+	}
+	u.HashedZero = allZero(a.hashedPrivPassphrase[:])
+	u.BranchPriv = a.branchInfo.externalBranchPriv != nil && a.branchInfo.internalBranchPriv != nil
+	u.AcctPriv = a.acctInfo.acctKeyPriv != nil
+	for _, ma := range a.addrs {
+		if ma.privKey != nil {
+			u.CachedPrivKeys++
+		}
+	}
+	if a.cryptoKeyPriv != nil {
+		u.CryptoKeyPrivZero = allZero(a.cryptoKeyPriv.Bytes())
+	}
+	return u
+}
+
+// VerifPath returns the derivation path (account, branch, index) of a managed address.
+func (mAddr *ManagedAddress) VerifPath() (account, branch, index uint32) {
+	return mAddr.derivationPath.Account, mAddr.derivationPath.Branch, mAddr.derivationPath.Index
+}
+
+// VerifNextIndexes returns the in-memory next external / internal child numbers.
+func (a *AddrManager) VerifNextIndexes() (external, internal uint32) {
+	a.mu.Lock()
+	defer a.mu.Unlock()
+	return a.branchInfo.nextExternalIndex, a.branchInfo.nextInternalIndex
+}
